@@ -444,4 +444,121 @@ theorem read_loops_eq (b : Cv.LoopsBlob) : read_loops b = .ok (readLoops b.loops
   rw [forPush_ok _ readLoop (fun _ => rfl)]
   simp [Res.bind]
 
+/-! ### convert_beatgrid.hpp -/
+
+/-- `convert::read::beatgrid_marker` -/
+theorem read_beatgrid_marker_eq (m : V2.Marker) : read_beatgrid_marker m = .ok ⟨trunc32 m.beatNo, m.off⟩ := by
+  unfold read_beatgrid_marker
+  rw [i64ToI32_eq]; rfl
+
+/-- `convert::read::beatgrid_markers` -/
+theorem read_beatgrid_markers_eq (g : List V2.Marker) : read_beatgrid_markers g = .ok (readGridMarkers g) := by
+  unfold read_beatgrid_markers readGridMarkers
+  have hf : ∀ c, (do let t1 ← read_beatgrid_marker c; pure t1 : Res GMarker) = .ok ⟨trunc32 c.beatNo, c.off⟩ := by
+    intro c; rw [read_beatgrid_marker_eq]
+  rw [show (fun marker => (do let t1 ← read_beatgrid_marker marker; pure t1 : Res GMarker)) =
+      fun c => .ok ⟨trunc32 c.beatNo, c.off⟩ from funext hf]
+  simp only [bind, Res.pure_eq]
+  have key := forPush_ok (fun c : V2.Marker => (Res.ok (⟨trunc32 c.beatNo, c.off⟩ : GMarker)))
+    (fun m => ⟨trunc32 m.beatNo, m.off⟩) (fun _ => rfl) [] g
+  rw [key]
+  simp [Res.bind]
+
+/-! `write::beatgrid_markers` walks the grid once and corrects the previous blob's `number_of_beats` through a
+reference to `converted.back()`; the hand model `writeGridMarkers` looks one marker ahead.  The loop invariant:
+after the prefix `pre`, `converted = writeGridMarkers pre`. -/
+
+theorem wg_cons2 (a b : GMarker) (r : List GMarker) :
+    writeGridMarkers (a :: b :: r) =
+      ⟨a.off, sext32 a.index, u32OfInt (s32 b.index - s64 (sext32 a.index)), 0⟩ :: writeGridMarkers (b :: r) := by
+  rw [writeGridMarkers]
+
+theorem wg_snoc (pre : List GMarker) (p m : GMarker) :
+    ∃ X, writeGridMarkers (pre ++ [p]) = X ++ [⟨p.off, sext32 p.index, 0, 0⟩] ∧
+      writeGridMarkers (pre ++ [p, m]) =
+        X ++ [⟨p.off, sext32 p.index, u32OfInt (s32 m.index - s64 (sext32 p.index)), 0⟩, ⟨m.off, sext32 m.index, 0, 0⟩] := by
+  induction pre with
+  | nil => exact ⟨[], by simp [writeGridMarkers], by simp [writeGridMarkers]⟩
+  | cons a t ih =>
+    obtain ⟨X, h1, h2⟩ := ih
+    cases t with
+    | nil =>
+      refine ⟨⟨a.off, sext32 a.index, u32OfInt (s32 p.index - s64 (sext32 a.index)), 0⟩ :: X, ?_, ?_⟩
+      · simp only [List.cons_append, List.nil_append] at h1 ⊢; rw [wg_cons2, h1]
+      · simp only [List.cons_append, List.nil_append] at h2 ⊢; rw [wg_cons2, h2]
+    | cons c t' =>
+      refine ⟨⟨a.off, sext32 a.index, u32OfInt (s32 c.index - s64 (sext32 a.index)), 0⟩ :: X, ?_, ?_⟩
+      · simp only [List.cons_append] at h1 ⊢; rw [wg_cons2, h1]
+      · simp only [List.cons_append] at h2 ⊢; rw [wg_cons2, h2]
+
+theorem s64_sext32 (x : UInt32) : s64 (sext32 x) = s32 x := by
+  unfold sext32
+  have hx := x.toNat_lt
+  have : -2147483648 ≤ s32 x ∧ s32 x < 2147483648 := by unfold s32; split <;> omega
+  exact s64_u64OfInt _ (by omega) (by omega)
+
+theorem s32_range (x : UInt32) : -2147483648 ≤ s32 x ∧ s32 x < 2147483648 := by
+  have hx := x.toNat_lt
+  unfold s32; split <;> omega
+
+/-- the invariant is kept by any loop body that does what the source's does on `writeGridMarkers pre` -/
+theorem forFold_grid (f : List V2.Marker → GMarker → Res (List V2.Marker))
+    (hf : ∀ pre m, f (writeGridMarkers pre) m = .ok (writeGridMarkers (pre ++ [m]))) (pre rest : List GMarker) :
+    Cv.forFold f (writeGridMarkers pre) rest = .ok (writeGridMarkers (pre ++ rest)) := by
+  induction rest generalizing pre with
+  | nil => simp [Cv.forFold]
+  | cons m r ih =>
+    unfold Cv.forFold
+    rw [hf pre m]
+    simp only [Res.bind]
+    rw [ih (pre ++ [m])]
+    simp
+
+/-- the distance written through the reference: `static_cast<int32_t>(iter->index - prev.beat_number)`, an
+`int64_t` subtraction of two values of `int` range — never `ub signed_overflow` -/
+theorem grid_distance (mi pi : UInt32) :
+    Cv.I64.sub (sext32 mi) (sext32 pi) = .ok (u64OfInt (s32 mi - s32 pi)) ∧
+      Cv.i64ToI32 (u64OfInt (s32 mi - s32 pi)) = u32OfInt (s32 mi - s64 (sext32 pi)) := by
+  have h1 := s32_range mi
+  have h2 := s32_range pi
+  constructor
+  · unfold Cv.I64.sub Cv.I64.chk
+    rw [s64_sext32, s64_sext32, if_neg (by omega)]
+  · unfold Cv.i64ToI32
+    rw [s64_u64OfInt _ (by omega) (by omega), s64_sext32]
+
+/-- `convert::write::beatgrid_markers` -/
+theorem write_beatgrid_markers_eq (g : List GMarker) : write_beatgrid_markers g = .ok (writeGridMarkers g) := by
+  unfold write_beatgrid_markers
+  simp only [bind, Res.pure_eq]
+  have key : ∀ F : List V2.Marker → GMarker → Res (List V2.Marker),
+      (∀ pre m, F (writeGridMarkers pre) m = .ok (writeGridMarkers (pre ++ [m]))) →
+      Cv.forFold F [] g = .ok (writeGridMarkers g) := fun F hF => by
+    have h := forFold_grid F hF [] g
+    rwa [show writeGridMarkers [] = [] from by simp [writeGridMarkers], List.nil_append] at h
+  rw [key _ ?_]
+  · simp [Res.bind]
+  · intro pre m
+    rcases List.eq_nil_or_concat pre with hnil | ⟨pre0, p, hp⟩
+    · subst hnil
+      simp [writeGridMarkers, Res.bind, i32ToI64_eq, i32_zero]
+    · rw [List.concat_eq_append] at hp
+      subst hp
+      obtain ⟨X, h1, h2⟩ := wg_snoc pre0 p m
+      have hd := grid_distance m.index p.index
+      have hne : ∀ l : V2.Marker, (X ++ [l]).isEmpty = false := fun l => by cases X <;> rfl
+      rw [List.append_assoc, List.singleton_append, h2, h1]
+      simp only [hne, Bool.not_false, if_true, Cv.back,
+        List.getLast?_append, List.getLast?_singleton, Option.some_or, Res.bind, hd.1, hd.2, Cv.setBack,
+        List.dropLast_concat, i32ToI64_eq, i32_zero, List.append_assoc, List.singleton_append, List.cons_append,
+        List.nil_append]
+
+/-- `convert::write::beatgrid`: the flag, and the same markers as default and adjusted grid -/
+theorem write_beatgrid_eq (g : List GMarker) :
+    write_beatgrid g = .ok ((if (writeGridMarkers g).isEmpty then 0 else 1), writeGridMarkers g, writeGridMarkers g) := by
+  unfold write_beatgrid
+  rw [write_beatgrid_markers_eq]
+  simp only [bind, Res.bind, Res.pure_eq]
+  cases (writeGridMarkers g).isEmpty <;> rfl
+
 end EngineModel.Gen.ConvertV2
